@@ -42,7 +42,7 @@ type C03Scenario struct {
 
 var (
 	wrapperOps = []string{"insert", "insert", "insert", "update", "updorins", "delete", "get", "ascgte", "ascgt", "desclte", "desclt"}
-	coreOps    = []string{"insert", "insert", "insert", "delete", "delete", "get", "has", "min", "max", "len", "delmin", "delmax",
+	coreOps    = []string{"insert", "insert", "insert", "insert", "insert", "delete", "delete", "get", "has", "min", "max", "len", "delmin", "delmax", "clear",
 		"ascgte", "ascgt", "desclte", "desclt", "ascrange", "asclt", "descrange", "descgt", "asc", "desc"}
 )
 
@@ -324,6 +324,12 @@ func doCore(t *btree.BTree, m *model, op tOp) (string, string) {
 		return item(t.Max()), w
 	case "len":
 		return fmt.Sprint(t.Len()), fmt.Sprint(len(m.items))
+	case "clear":
+		// Clear(addNodesToFreelist): the tree is empty afterwards; with the flag its own nodes go back to the (shared)
+		// free list, nodes it shares with a clone must be left alone
+		m.items = nil
+		t.Clear(op.K%2 == 0)
+		return fmt.Sprint(t.Len()), "0"
 	case "delmin":
 		w := "<nil>"
 		if len(m.items) > 0 {
